@@ -21,7 +21,7 @@ WildSpec == Init /\ [][WildNext]_vars
 WildBound == ntok <= 3 /\ nw <= 2 /\ Renames <= 1 /\ TLCGet("level") <= 4
 WildDeepBound == ntok <= 3 /\ nw <= 2 /\ Renames <= 1 /\ TLCGet("level") <= 5
 DeepBound == ntok <= 4 /\ nw <= 3 /\ Renames <= 1 /\ TLCGet("level") <= 8
-Bound == ntok <= 3 /\ nw <= 2 /\ Renames <= 1 /\ TLCGet("level") <= 6
+Bound == ntok <= 3 /\ nw <= 2 /\ Renames <= 1 /\ TLCGet("level") <= 7
 View == <<cfg, name, par, kids, named, run, ntok, tokw, tokdone, nw, worig, wn, wdone, dang, corrupt, dstart, dstop, wild>>
 \* reachability witnesses: TLC must report these VIOLATED (the ODDITY branches and late-firing watchers are reached)
 NeverCorrupt == corrupt = {} \/ dang = {}
